@@ -3,6 +3,7 @@ from .. import alg, fitmodel as fm, readers
 from ..alg import Poly, P, B, C, sym, sum_over, lt, mk_fn
 from ..interp import Interp, Hooks, Arr, Obj, Unk, symarr, scalar, num
 from ..fitmodel import W, M, D, loc, compare
+from ..readers import A, N
 from ..loader import AnalysisError
 
 EXPLANATION = (
@@ -70,6 +71,80 @@ def check_readers(ctx):
                 ctx.undecided('ALG-10', '%s: interpolate argument' % tag, where, 'no call of interpolate was met, but the reader was not followed to its end')
             else:
                 ctx.violation('ALG-10', '%s: interpolate argument' % tag, where, 'convolved fluxes are never interpolated to the aperture radius', 'no-interpolate')
+
+
+def check_readers_distance_independent(ctx):
+    """a package whose models do not depend on the aperture: no distance grid, and the flux of model m through filter w is the convolved flux as stored
+    (its single aperture) - what the 2-parameter fit of C01 is given"""
+    repo = ctx.repo
+    for version, named in ((1, True), (2, True), (2, False)):
+        fi, I, h, m = readers.run_reader(repo, version, named=named, aperture_dependent=False)
+        ctx.fn(fi)
+        tag = 'v%d %s, models independent of the aperture' % (version, 'named filter' if named else 'wavelength filter')
+        where = loc(fi)
+        if I.findings:
+            compare(ctx, 'ALG-10', tag, where, Unk('x'), Poly(), findings=I.findings)
+            continue
+        if not isinstance(m, Obj):
+            ctx.undecided('ALG-10', tag, where, 'reader result not modelled: %r' % (m,))
+            continue
+        if named:
+            tab, lam = sym('cflux', M, A, W), sym('cwav', W)
+        else:
+            idx = mk_fn('argmin', B(N, mk_fn('abs', P(sym('cubewav', N) - sym('fwav', W)))))
+            tab, lam = mk_fn('at', B(N, sym('cubeval', M, A, N)), P(idx)), sym('fwav', W)
+        flux = mk_fn('at', B(A, tab), P(Poly()))
+        for nm, got, want, dims in (('fluxes', m.attrs.get('_fluxes'), flux, (M, W)), ('wavelengths', m.attrs.get('_wavelengths'), lam, (W,)),
+                                    ('names', m.attrs.get('names'), mk_fn('strip', P(sym('cnames', M))), (M,))):
+            compare(ctx, 'ALG-10', '%s: %s' % (tag, nm), where, got, want, dims, vocab=VOCAB, fns=FNS,
+                    detail_ok={'fluxes': 'flux[m,w] == the convolved flux of model m through filter w, as stored', 'wavelengths': 'wavelengths[w] filled in the same loop index as flux[:, w]',
+                               'names': 'names == strip(model names of the convolved file)'}[nm])
+        dist = m.attrs.get('_distances')
+        ctx.expect(dist is None, 'ALG-10', '%s: no distance grid' % tag, where, 'distances stay unset: the fit is the 2-parameter one', 'distances are %r' % (dist,), 'distances-set')
+
+
+class _TwoFilters(readers.ReaderHooks):
+    """the convolved file of each of two named filters holds its own symbols: what ends up in column k must come from file k"""
+    def opaque(self, interp, fi, args, kwargs, node):
+        if fi.qual.endswith(':ConvolvedFluxes.read'):
+            fn = args[-1] if args else kwargs.get('filename')
+            k = 0 if 'FILT0' in str(fn) else 1 if 'FILT1' in str(fn) else None
+            if k is None:
+                return Unk('ConvolvedFluxes.read(%r)' % (fn,))
+            from ..interp import unit_atom
+            return Obj(interp.repo.cls('convolved_fluxes.convolved_fluxes', 'ConvolvedFluxes'), {
+                '_model_names': symarr('cnames', (M,)), '_apertures': symarr('cap', (A,), unit=unit_atom('au')),
+                '_flux': symarr('cflux%d' % k, (M, A), unit=unit_atom('mJy')), '_error': symarr('cerr%d' % k, (M, A), unit=unit_atom('mJy')),
+                '_wavelength': Arr((), sym('cwav%d' % k), unit=unit_atom('micron'))})
+        return readers.ReaderHooks.opaque(self, interp, fi, args, kwargs, node)
+
+
+def check_readers_two_filters(ctx):
+    """the readers run over two concrete filters (the loop over the filters really iterates, so what one iteration leaves behind for the next is seen): column k
+    of the model fluxes and element k of the wavelengths come from the convolved file of filter k, for both k"""
+    from ..interp import ClassRef
+    repo = ctx.repo
+    for version in (1, 2):
+        fi = ctx.fn(repo.func('models', 'Models._read_version_%d' % version))
+        I = Interp(repo, _TwoFilters(False, False))
+        filters = [{'aperture_arcsec': Arr((), sym('theta%d' % k), unit=num(1)), 'name': 'FILT%d' % k} for k in range(2)]
+        kw = {'distance_range': None, 'remove_resolved': False}
+        if version == 2:
+            kw['use_memmap'] = False
+        tag = 'v%d, two named filters, models independent of the aperture' % version
+        try:
+            m = I.call(fi, ['DIR', filters], kw, selfv=ClassRef(repo.cls('models', 'Models')))
+        except Exception as ex:
+            m = Unk('%s: %s' % (type(ex).__name__, str(ex)[:80]))
+        fl, wv = (m.attrs.get('_fluxes'), m.attrs.get('_wavelengths')) if isinstance(m, Obj) else (m, m)
+        for nm, got, base, ax in (('fluxes', fl, lambda k: mk_fn('at', B(A, sym('cflux%d' % k, M, A)), P(Poly())), 1), ('wavelengths', wv, lambda k: sym('cwav%d' % k), 0)):
+            if not isinstance(got, Arr) or got.mask is not None or got.ndim != ax + 1 or I.axis_len.get(got.dims[ax]) != 2 or I.findings:
+                compare(ctx, 'ALG-10', '%s: %s' % (tag, nm), loc(fi), got if isinstance(got, Unk) else Unk('%s not over the two filters: %r' % (nm, got)), Poly(), findings=I.findings)
+                continue
+            for k in range(2):
+                col = Arr(got.dims[:ax], alg.index_at(got.poly, got.dims[ax], Poly.const(k)), None, got.unit)
+                compare(ctx, 'ALG-10', '%s: %s of filter %d' % (tag, nm, k), loc(fi), col, base(k), (M,) if ax else (), vocab={'cflux0', 'cflux1', 'cerr0', 'cerr1', 'cwav0', 'cwav1', 'cnames', 'cap'}, fns=FNS,
+                        detail_ok='from the convolved file of filter %d' % k)
 
 
 def check_fit_3d(ctx):
